@@ -589,6 +589,54 @@ def rule_r14_for_filter_map(body, log, where):
     return body
 
 
+def rule_r15_or_else_map_collect(body, log, where):
+    """R8f: `A.or_else(|| B)`  ->  `match A { Some(__v) => Some(__v), None => B }`                      (std: Option::or_else)
+       R15: `X.iter().map(|(a, b)| F).collect()`  ->  X iterated once with `for (a, b) in X.iter()`, every F inserted, in iteration
+            order, into a fresh collection `collect_new()` through `collect_insert` (std: FromIterator for an insertion-ordered map is
+            insert-in-order; the result type is fixed by the enclosing function's return type).
+       Opt-in (`rules=R15`)."""
+    n8f = 0
+    while True:
+        kind = rs.code_mask(body)
+        hit = None
+        for s_, e_, m in rs.find_code(body, kind, r'\.\s*or_else\s*\(\s*\|\s*\|', 0, len(body)):
+            hit = (s_, e_); break
+        if hit is None:
+            break
+        s_, e_ = hit
+        popen = body.index('(', s_)
+        pclose = rs.match_close(body, kind, popen)
+        b = body[e_:pclose].strip()
+        rstart = _receiver_start(body, kind, s_)
+        recv = body[rstart:s_].strip()
+        n8f += 1
+        body = body[:rstart] + 'match %s { Some(__v8f) => Some(__v8f), None => %s }' % (recv, b) + body[pclose + 1:]
+    n15 = 0
+    while True:
+        kind = rs.code_mask(body)
+        hit = None
+        for s_, e_, m in rs.find_code(body, kind, r'\.\s*iter\s*\(\s*\)\s*\.\s*map\s*\(\s*\|\s*\(\s*(\w+)\s*,\s*(\w+)\s*\)\s*\|', 0, len(body)):
+            popen = body.index('(', body.index('map', s_))
+            pclose = rs.match_close(body, kind, popen)
+            mc = re.match(r'\s*\.\s*collect\s*\(\s*\)', body[pclose + 1:])
+            if mc:
+                hit = (s_, e_, m, pclose, pclose + 1 + mc.end()); break
+        if hit is None:
+            break
+        s_, e_, m, pclose, end = hit
+        f = body[e_:pclose].strip()
+        x_start = _receiver_start(body, kind, s_)
+        x = body[x_start:s_].strip()
+        n15 += 1
+        acc = '__acc15_%d' % n15
+        new = ('{ let mut %s = collect_new(); for (%s, %s) in %s.iter() { let __item15 = %s; collect_insert(&mut %s, __item15); } %s }'
+               % (acc, m.group(1), m.group(2), x, f, acc, acc))
+        body = body[:x_start] + new + body[end:]
+    log.hit('R8f.option_or_else', n8f, where)
+    log.hit('R15.iter_map_collect', n15, where)
+    return body
+
+
 def rule_r5_mut_self(header, body, log, where):
     """`fn f(mut self, ..) { B }` -> `fn f(self, ..) { let mut self_ = self; B[self := self_] }`
        (Verus: "mut self" unsupported). Same moves, same mutations."""
@@ -975,6 +1023,8 @@ def _apply_fn_full(d, log, fnmap, out_lineno, stub_only=False):
         body = rule_r8_result_combinators(body, log, where)
     if 'R9' in d.opts.get('rules', ''):
         body = rule_r9_iter_first(body, log, where)
+    if 'R15' in d.opts.get('rules', ''):
+        body = rule_r15_or_else_map_collect(body, log, where)
     if 'R13' in d.opts.get('rules', ''):
         body = rule_r13_continue(body, log, where)
     if 'R14' in d.opts.get('rules', ''):
